@@ -290,7 +290,11 @@ class InterpreterBase:
         return self._holderify({k: _unholder(v) for k, v in kwargs.items()})
 
     def evaluate_notstatement(self, cur: mparser.NotNode) -> InterpreterObject:
+        prev_meson_version = self.tmp_meson_version
         v = self.evaluate_statement(cur.value)
+        # A meson.version().version_compare() under `not` holds when the
+        # guarded block does NOT run, so it must not narrow the version range.
+        self.tmp_meson_version = prev_meson_version
         if v is None:
             raise InvalidCodeOnVoid('not')
         if isinstance(v, Disabler):
@@ -340,6 +344,7 @@ class InterpreterBase:
         return None
 
     def evaluate_comparison(self, node: mparser.ComparisonNode) -> InterpreterObject:
+        prev_meson_version = self.tmp_meson_version
         val1 = self.evaluate_statement(node.left)
         if val1 is None:
             raise mesonlib.MesonException('Cannot compare a void statement on the left-hand side')
@@ -350,6 +355,10 @@ class InterpreterBase:
             raise mesonlib.MesonException('Cannot compare a void statement on the right-hand side')
         if isinstance(val2, Disabler):
             return val2
+        # The result of a comparison does not say that a
+        # meson.version().version_compare() made by an operand holds
+        # (`... == false`), so it must not narrow the version range.
+        self.tmp_meson_version = prev_meson_version
 
         op = operator.MAPPING[node.ctype]
 
@@ -377,6 +386,7 @@ class InterpreterBase:
         return self._holderify(r.operator_call(MesonOperator.BOOL, None))
 
     def evaluate_orstatement(self, cur: mparser.OrNode) -> InterpreterObject:
+        prev_meson_version = self.tmp_meson_version
         l = self.evaluate_statement(cur.left)
         if l is None:
             raise mesonlib.MesonException('Cannot compare a void statement on the left-hand side')
@@ -385,6 +395,9 @@ class InterpreterBase:
         l_bool = l.operator_call(MesonOperator.BOOL, None)
         if l_bool:
             return self._holderify(l_bool)
+        # The left operand is false: a meson.version().version_compare() it
+        # made does not hold, so it must not narrow the version range.
+        self.tmp_meson_version = prev_meson_version
         r = self.evaluate_statement(cur.right)
         if r is None:
             raise mesonlib.MesonException('Cannot compare a void statement on the right-hand side')
